@@ -13,7 +13,6 @@ import (
 
 	"github.com/launchdarkly/go-sdk-common/v3/ldcontext"
 	"github.com/launchdarkly/go-semver"
-	evaluation "github.com/launchdarkly/go-server-sdk-evaluation/v3"
 	"github.com/launchdarkly/go-server-sdk-evaluation/v3/ldmodel"
 )
 
@@ -91,22 +90,22 @@ func (c *UnitCase) run() {
 		attr := c.Attr.build()
 		ra := dumpRef(attr, c.Attr.Ctor, c.Attr.Arg)
 		c.Attr = &ra
-		v, fail, err := evaluation.VerifComputeBucketValue(c.Sec, ctx, c.IsExp, optInt(c.Seed), ldcontext.Kind(c.CK), c.Key, attr, c.Salt)
+		v, fail, err := hookComputeBucketValue(c.Sec, ctx, c.IsExp, optInt(c.Seed), ldcontext.Kind(c.CK), c.Key, attr, c.Salt)
 		if err != nil {
 			c.Go = map[string]any{"err": true, "bits": 0, "fail": 1}
 		} else {
 			c.Go = map[string]any{"err": false, "bits": math.Float32bits(v), "fail": fail}
 		}
 	case "buffer":
-		ops := make([]evaluation.VerifBufOp, len(c.Ops))
+		ops := make([]hookBufOp, len(c.Ops))
 		for i, o := range c.Ops {
-			ops[i] = evaluation.VerifBufOp{Kind: o.K[0], B: byte(o.B), S: o.S, I: o.I}
+			ops[i] = hookBufOp{Kind: o.K[0], B: byte(o.B), S: o.S, I: o.I}
 		}
-		data := evaluation.VerifLocalBufferScript(c.Cap, ops)
+		data := hookLocalBufferScript(c.Cap, ops)
 		c.Go = map[string]any{"data": hex.EncodeToString(data)}
 	case "hex":
 		b, _ := hex.DecodeString(c.Hex)
-		v, ok := evaluation.VerifParseHexUint64(b)
+		v, ok := hookParseHexUint64(b)
 		c.Go = map[string]any{"ok": ok, "v": strconv.FormatUint(v, 10)}
 	case "time":
 		if c.V == nil {
@@ -152,7 +151,7 @@ func (c *UnitCase) run() {
 		c.Clause = &dc
 		wf := &WFlag{Rules: []WFlagRule{{Clauses: []WClause{dc}}}}
 		c.Rx = regexOracleFor([]*WFlag{wf}, nil, c.Ctx)
-		m, err := evaluation.VerifClauseMatchNoSegments(&cl, &ctx)
+		m, err := hookClauseMatchNoSegments(&cl, &ctx)
 		if err != nil {
 			c.Go = map[string]any{"match": false, "err": classifyLog(err.Error())}
 		} else {
